@@ -50,8 +50,10 @@ def build_pair(d, go126=False):
         rc, so, se = core.go_build(w, d, out, go=core.GO126)
         res["go126"] = (out if rc == 0 else None, so + se)
     out = os.path.join(d, "p_llgo.bin")
-    rc, so, se = core.llgo_build(w, llgo, d, out)
+    rc, so, se = core.llgo_build(w, llgo, d, out, timeout=1800)
     res["llgo"] = (out if rc == 0 else None, so + se)
+    if rc == -999:
+        res["llgo_timeout"] = True       # build watchdog on an overloaded machine: inconclusive, never a verdict
     return res
 
 
@@ -98,6 +100,8 @@ def run_probes():
     if ref.kind != "exit" or ref.rc != 0 or "END" not in ref.err:
         core.broken("probe program failed under the reference toolchain: %s rc=%s\n%s" % (ref.kind, ref.rc, ref.err[-1500:]))
     rsec = probe_sections(ref.err)
+    if res.get("llgo_timeout"):
+        core.broken("llgo build of the probe program hit the build watchdog (overloaded machine?)")
     if res["llgo"][0] is None:
         files["build.log"] = res["llgo"][1]
         chk.violation("probes-llgo-build-failure", files, "llgo cannot build the probe program that go accepts:\n" + res["llgo"][1][-1500:])
@@ -217,6 +221,9 @@ def digest(o):
             oracle_bad.append("program %d unit %d [%s] %s: go %s, generator expects %s" % (pi, i, u.sig, u.desc, tr.outcomes(ru[i]), exp))
         else:
             stats["oracle_agree_reps"] += len(exp)
+    if res.get("llgo_timeout"):
+        chk.inconclusive += 1
+        return
     if res["llgo"][0] is None:
         report("compile-failure", "llgo-build-failure-p%d" % pi, {"main.go": o["src"], "go.mod": "module c03faults\n\ngo 1.24\n", "build.log": res["llgo"][1]},
                "llgo cannot build generated program %d that go accepts:\n%s" % (pi, res["llgo"][1][-1500:]))
